@@ -321,6 +321,13 @@ func c20Plan(thorough bool) *plan {
 	for _, t := range bind.Types {
 		scs = append(scs, pairScenario(t.QName()+" x "+t.QName(), []*rm.Value{valenum.Distinct(t), valenum.Long(t)}))
 	}
+	// a message that starts with a long (600-byte) text and continues with short ones, next to a short-text message:
+	// scratch space that is sized, swapped or pooled on the long path and then shared on the short path shows here
+	for _, t := range bind.Types {
+		if mv, ok := valenum.Mixed(t); ok {
+			scs = append(scs, pairScenario(t.QName()+" long-then-short x "+t.QName(), []*rm.Value{mv, valenum.Distinct(t)}))
+		}
+	}
 	// a ring of cross-type pairs (each type with the next one, across protocol boundaries at the seams)
 	for i, t := range bind.Types {
 		u := bind.Types[(i+1)%len(bind.Types)]
